@@ -3,6 +3,7 @@
    cases as harness/time_drv.c, compares (DIFF) and applies the extracted statements of the
    properties to what the implementation did (FAIL). *)
 open TimeModel
+(*INCLUDE conv_nat.inc*)
 (*INCLUDE conv_z.inc*)
 (*INCLUDE conv_io.inc*)
 
@@ -275,13 +276,14 @@ let case_retry k args lines =
            s_now := n';
            if removed_current then push_in (IConnClosed (n', aRES_SUCCESS))
          | ["E"; "openfail"; _] | ["E"; "sendfail"; _] -> ()
-         | "CB" :: st :: _ ->
+         | "CB" :: st :: _ when not (List.mem "CLOCKRANGE" lines && zd st = zi 16) ->
            incr ncb;
            if (!q).q_queued <> O && not (!q).q_sending && (!q).q_ended = None then flush_all ();
            expect_out (ODone (zd st));
            drain ()
          | _ -> ()) lines;
        drain ();
+       if List.mem "CLOCKRANGE" lines then Hashtbl.replace feats "clockrange" ();
        if !pending_out <> [] && not !rejected then diff k "model predicts %d more outputs than the implementation produced" (List.length !pending_out);
        let tr = List.rev !trace in
        if not !rejected && not (retry_accepts cfg q0 tr) then diff k "extracted acceptor rejects the implementation trace (%d events)" (List.length tr);
@@ -290,8 +292,8 @@ let case_retry k args lines =
        if zlt b (transmissions tr) then fail k "transmissions-exceed-bound" "transmissions=%s bound=%s (servers<=%s tries=%s)" (dz (transmissions tr)) (dz b) (dz smax) (dz tries);
        (match List.filter_map (fun l -> match words l with ["END"; n; d; a] -> Some (n, d, a) | _ -> None) lines with
         | [(_, d, a)] ->
-          if d <> "1" then fail k "no-completion" "query did not complete (callbacks=%d)" !ncb;
-          if a <> "0" then fail k "no-completion" "%s queries still active at the end" a
+          if d <> "1" && not (List.mem "CLOCKRANGE" lines) then fail k "no-completion" "query did not complete (callbacks=%d)" !ncb;
+          if a <> "0" && not (List.mem "CLOCKRANGE" lines) then fail k "no-completion" "%s queries still active at the end" a
         | _ -> ());
        if !ncb > 1 then fail k "callback-count" "callback called %d times" !ncb;
        List.iter (fun s -> if Z.eqb s aRES_SUCCESS && not (Hashtbl.mem feats "reply-a" || Hashtbl.mem feats "reply-x" || Hashtbl.mem feats "reply-c" || Hashtbl.mem feats "reply-f"
@@ -302,6 +304,54 @@ let case_retry k args lines =
        Printf.sprintf "retry-s%s-t%s%s" (dz smax)
          (let t = int_of_z tries in if t = 1 then "1" else if t <= 4 then "few" else if t < 52 then "mid" else if t < 65 then "52to64" else "65plus")
          (if fl = [] then "-timeouts" else "-" ^ String.concat "+" fl))
+  | _ -> "trivial-badcase"
+
+(* ------------------------------------------------------------------ pt: process_timeouts over several queries *)
+let case_pt k args lines =
+  match split_on '|' args with
+  | [_; sends; p] ->
+    (match List.filter_map (fun l -> match words l with ["CFG"; s; t; to_; mt] -> Some (s, t, to_, mt) | _ -> None) lines with
+     | [] -> "trivial-nochannel"
+     | (s0, tries, timeout, maxt) :: _ ->
+       let srv = zd s0 and tries = zd tries and timeout = zd timeout and maxt = zd maxt in
+       let pnow = tv_of_pair p in
+       let base = match metrics_server_timeout timeout maxt pnow metrics_init with Ok b -> b | _ -> Z0 in
+       let sends = List.map tv_of_pair (List.filter (fun s -> s <> "") (split_on ';' sends)) in
+       let qids = List.filter_map (fun l -> match words l with ["Q"; i; q] -> Some (int_of_string i, int_of_string q) | _ -> None) lines in
+       let w0 = calc_spec base srv Z0 maxt Z0 in
+       let entries = List.mapi (fun i s -> match timeadd s w0 with Ok d -> (List.assoc i qids, d) | _ -> (List.assoc i qids, s)) sends in
+       let idx = List.fold_left (fun acc e -> insert_sorted e acc) [] entries in
+       let requeue _ = if zlt (zi 1) (Z.mul srv tries) then Some (calc_spec base srv (zi 1) maxt Z0) else None in
+       let rec after = function [] -> [] | l :: r -> if l = "E process" then r else after r in
+       let rec upto = function [] -> [] | l :: r -> if starts_with "END" l then [] else l :: upto r in
+       let seg = upto (after lines) in
+       let impl_handled = List.filter_map (fun l -> match words l with
+         | "T" :: _ :: _ :: _ :: _ :: qid :: _ -> Some (int_of_string qid)
+         | "CB" :: _ :: _ :: _ :: _ :: i :: _ -> Some (List.assoc (int_of_string i) qids)
+         | _ -> None) seg in
+       let dl q = List.assoc q entries in
+       (* order among equal deadlines is the skip list's business: compare modulo it *)
+       let norm l = List.stable_sort (fun a b -> let c = Z.compare (tv_us (dl a)) (tv_us (dl b)) in
+                                      match c with Lt -> -1 | Gt -> 1 | Eq -> compare a b) l in
+       (match process_timeouts requeue (nat_of_int (List.length idx)) pnow idx [] with
+        | Ok (idx', handled) ->
+          if norm handled <> norm impl_handled then
+            diff k "process_timeouts handled model=[%s] impl=[%s]" (String.concat " " (List.map string_of_int (norm handled))) (String.concat " " (List.map string_of_int (norm impl_handled)));
+          let sorted_ok = let rec chk = function a :: (b :: _ as r) -> zle (tv_us (dl a)) (tv_us (dl b)) && chk r | _ -> true in chk impl_handled in
+          if not sorted_ok then diff k "process_timeouts handled queries out of deadline order: [%s]" (String.concat " " (List.map string_of_int impl_handled));
+          let mh = match timeout_int (List.map snd idx') pnow None with
+            | Ok (HintBuf t) -> dz t.tv_sec ^ " " ^ dz t.tv_usec | Ok HintMax -> "none" | _ -> "UB" in
+          let gh = match payload seg "H" with [g] -> g | _ -> "<none>" in
+          if mh <> gh then diff k "hint after processing model=[%s] impl=[%s]" mh gh
+        | _ -> diff k "process_timeouts model failed");
+       (* C07: every query whose deadline has passed is re-sent or ended, no other *)
+       List.iter (fun (q, d) ->
+         let due = zle (tv_us d) (tv_us pnow) and was = List.mem q impl_handled in
+         if due && not was then fail k "deadline-missed" "qid %d deadline %s,%s processed at %s: not handled" q (dz d.tv_sec) (dz d.tv_usec) p;
+         if was && not due then fail k "fired-before-deadline" "qid %d deadline %s,%s processed at %s: handled early" q (dz d.tv_sec) (dz d.tv_usec) p) entries;
+       let ndue = List.length (List.filter (fun (_, d) -> zle (tv_us d) (tv_us pnow)) entries) in
+       Printf.sprintf "pt-q%s-%s" (let n = List.length entries in if n <= 1 then string_of_int n else if n <= 8 then "few" else "many")
+         (if ndue = 0 then "nonedue" else if ndue = List.length entries then "alldue" else "somedue"))
   | _ -> "trivial-badcase"
 
 let () =
@@ -322,6 +372,7 @@ let () =
            | "tmo" -> if monitor then "tmo-monitor" else case_tmo k args lines
            | "met" -> if monitor then "met-monitor" else case_met k args lines
            | "retry" -> if monitor then "retry-monitor" else case_retry k args lines
+           | "pt" -> if monitor then "pt-monitor" else case_pt k args lines
            | _ -> "trivial-badkind"
          with e -> diff k "model driver exception %s" (Printexc.to_string e); "trivial-exception") in
     Printf.printf "CASE %d %s\n" k cls) cases;
